@@ -449,5 +449,13 @@ def r13_6(ctx):
     from .common import delegate
     delegate(ctx, c12.r12_4, lambda c: c.startswith("Kconfig._load_old_vals/"))
 
+def r13_7(ctx):
+    """R13.7 auto.conf records every written option: _old_vals_contents leaves out n-valued bools only (C12 R12.2) - an option that is
+    missing there has no old value at the next sync, so its trigger file is touched although nothing changed."""
+    from . import c12
+    from .common import delegate
+    delegate(ctx, c12.r12_2, lambda c: "_old_vals_contents/records" in c)
+
+
 def rules():
-    return [("R13.6", r13_6, 4), ("R13.5", r13_5, 3), ("R13.1", r13_1, 6), ("R13.1b", r13_1b, 2), ("R13.2", r13_2, 4), ("R13.3", r13_3, 4), ("R13.4", r13_4, 3)]
+    return [("R13.7", r13_7, 1), ("R13.6", r13_6, 4), ("R13.5", r13_5, 3), ("R13.1", r13_1, 6), ("R13.1b", r13_1b, 2), ("R13.2", r13_2, 4), ("R13.3", r13_3, 4), ("R13.4", r13_4, 3)]
